@@ -79,6 +79,19 @@ def r08_3_4(prog, rep, direction, c, slot):
         if a and a[0] == "each" and a[1] == attr and a[3] == ("param", "val"):
             first_result = True
     rep.check(first_result, "R08.4", c.qualname, f.loc, "the loop returns the first member routine's result on the input", "no path returns elem(member routines)(val)", detail="first-acceptor")
+    # only the members answer: besides `None -> None`, no path returns without having asked the member routines in order
+    shortcuts = []
+    for p, r in P.returns(ps):
+        a = K.applied_slot(r)
+        if a and a[0] == "each" and a[1] == attr:
+            continue
+        is_none = any(pol and g[0] == "cmp" and g[1] == "is" and g[2] == ("param", "val") and g[3] == ("const", None) for g, pol in p.guards())
+        if is_none and r in (("param", "val"), ("const", None)):
+            continue
+        if any(e[0] == "loop" for e in p.events):
+            continue  # a result computed inside the member loop (judged by first-acceptor above)
+        shortcuts.append(T.show(r)[:60])
+    rep.check(not shortcuts, "R08.4", c.qualname, f.loc, "no answer is given before the members are asked in declared order (None -> None excepted)", f"a short-cut returns {shortcuts[0] if shortcuts else ''} before the member loop: an input that an earlier member accepts and converts (2.5 for Union[int, float], a datetime for Union[date, datetime]) is answered out of order", detail="only-members-answer")
     falls = [p for p in ps if p.exit[0] != "return"]
     ok = bool(falls) and all(p.exit[0] == "raise" and T.is_call_to(p.exit[1], "builtins.ValueError") for p in falls)
     rep.check(ok, "R08.4", c.qualname, f.loc, "falling out of the loop raises ValueError", "a path that exhausts the members does not raise ValueError", detail="terminal")
@@ -228,6 +241,27 @@ def r08_6(prog, rep):
                 if subj[0] == "sub" and subj[2][0] == "const":
                     fixed_index = True
     rep.check(ok and not fixed_index, "R08.6", f.qualname, f.loc, "the None member is searched among all union members", "isoptionaltype looks for None at a fixed position only: a union with None elsewhere is not treated as optional (Union[str, None, int] turns None into 'None')", detail="all-members")
+    # sibling agreement: every origin isuniontype() recognises as a union is one isoptionaltype() considers (both spellings,
+    # typing.Union and the PEP 604 types.UnionType, denote the same annotation)
+    fu = prog.functions.get(f"{C.INSP}.isuniontype")
+    if fu is not None:
+        def origins(fn):
+            out = set()
+            delegated = False
+            for pth in P.paths_of(prog, fn):
+                for tm in pth.all_terms():
+                    for x in T.walk(tm):
+                        if x[0] == "cmp" and x[1] in ("in", "is", "=="):
+                            for y in T.walk(x[3]):
+                                if T.refname(y) in ("typing.Union", "types.UnionType", "typing.Optional"):
+                                    out.add(T.refname(y))
+                        if T.is_call_to(x, fu.qualname) and fn is not fu:
+                            delegated = True
+            return out, delegated
+        uo, _ = origins(fu)
+        oo, deleg = origins(f)
+        missing = sorted(o for o in uo if o not in oo) if not deleg else []
+        rep.check(not missing, "R08.6", f.qualname, f.loc, f"every union origin of isuniontype() ({sorted(uo)}) is examined for a None member", f"isoptionaltype never considers {missing}: `X | None` and Optional[X] are the same annotation but only one spelling is treated as optional (None is then offered to str/bytes/bool first and comes back as 'None' / b'None' / False)", detail="both-spellings")
     # no predicate may assume where the None member sits: under an optional/union guard, the member tuple is never cut
     # by a constant slice or index (`get_args(obj)[:-1]` drops the *last* member, not None)
     for qn, fn in sorted(prog.functions.items()):
